@@ -126,6 +126,64 @@ def high_bytes(ctx):
     ctx.count('high_byte_evaluations', n)
 
 
+def high_byte_tree(ctx):
+    """File names and patterns with bytes >= 0x80 through the file-system entry points: the walker, given bytes, treats every
+    byte as one Latin-1 code unit, exactly like the matcher does (glob == the entries globmatch accepts), WcMatch likewise."""
+    from .. import env
+    import shutil
+    _base, root = env.mknested('c18hb-')
+    broot = os.fsencode(root)
+    files = [b'caf\xc3\xa9.txt', b'na\xef', b'd\xc3\xa9p/x.txt', b'd\xc3\xa9p/\xff.txt', b'plain', b'\xe9', b'\x80\x81', b'sub/caf\xc3\xa9.txt', b'sub/\xa9']
+    try:
+        for fb in files:
+            p = os.path.join(broot, fb)
+            os.makedirs(os.path.dirname(p), exist_ok=True)
+            open(p, 'wb').close()
+        entries = set()
+        for fb in files:
+            parts = fb.split(b'/')
+            for i in range(1, len(parts) + 1):
+                entries.add(b'/'.join(parts[:i]))
+        entries = sorted(entries)
+        isdir = {e: os.path.isdir(os.path.join(broot, e)) for e in entries}
+        pats = [(b'caf\xc3\xa9.*', ()), (b'd\xc3\xa9p/*.txt', ()), (b'na\xef*', ()), (b'*\xa9*', ()), (b'**/x.txt', ('GLOBSTAR',)),
+                (b'caf??.txt', ()), (b'caf?.txt', ()), (b'[\xc3]*', ()), (b'[!\xc3]*', ()), (b'{caf\xc3\xa9.txt,plain}', ('BRACE',)),
+                (b'na\xef|plain', ('SPLIT',)), (b'\xe9', ()), (b'?', ()), (b'??', ()), (b'**/*\xa9*', ('GLOBSTAR',)), (b'*/\xff.txt', ()),
+                (b'@(na\xef|\xe9)', ('EXTMATCH',)), (b'd\xc3\xa9p/', ()), (b'**/caf\xc3\xa9.txt', ('GLOBSTAR',)), (b'[\x80-\xff]*', ()),
+                (b'*[![:ascii:]]', ()), (b'd\xc3\xa9p/**', ('GLOBSTAR',)), (b'sub/[\xa0-\xaf]', ())]
+        for pi, (pat, fnames) in enumerate(pats):
+            if not ctx.mine(pi):
+                continue
+            flags = flags_of(fnames)
+            wit = {'pattern': repr(pat), 'flags': list(fnames), 'mode': 'high-byte-tree', 'tree': [repr(x) for x in files]}
+            try:
+                got = sorted(x.rstrip(b'/') for x in G.glob(pat, flags=flags, root_dir=broot))
+                got_i = sorted(x.rstrip(b'/') for x in G.iglob(pat, flags=flags, root_dir=broot))
+                m = G.compile(pat, flags=flags)
+                want = sorted(e for e in entries if m.match(e + b'/' if isdir[e] else e))
+                if pat.endswith(b'/'):
+                    want = [e for e in want if isdir[e]]
+            except Exception as e:  # noqa: BLE001
+                ctx.disagree(f'bytes glob with non-ASCII bytes raised {type(e).__name__}', dict(wit, exception=repr(e)[:200]))
+                continue
+            ctx.evals()
+            ctx.count('high_byte_tree_checks')
+            if got != want or got_i != want:
+                ctx.disagree('bytes glob with non-ASCII bytes differs from the entries the bytes matcher accepts (per-byte Latin-1 reading)',
+                             dict(wit, glob=[repr(x) for x in got[:10]], matcher_accepts=[repr(x) for x in want[:10]]))
+            if b'/' not in pat and b'**' not in pat:
+                wm = outcome(lambda: sorted(os.path.relpath(x, broot) for x in WM.WcMatch(broot, pat, None, WM.RECURSIVE | (WM.BRACE if 'BRACE' in fnames else 0) | (WM.EXTMATCH if 'EXTMATCH' in fnames else 0)).match()))
+                mm = F.compile(pat, flags=F.DOTMATCH | F.SPLIT | F.NEGATE | flags_of([x for x in fnames if x in ('BRACE', 'EXTMATCH')]))
+                want_w = sorted(fb for fb in files if mm.match(fb.split(b'/')[-1]))
+                ctx.count('high_byte_tree_checks')
+                if wm != want_w:
+                    ctx.disagree('bytes WcMatch with non-ASCII bytes differs from the base names the bytes matcher accepts',
+                                 dict(wit, wcmatch=repr(wm)[:200], matcher_accepts=[repr(x) for x in want_w[:10]]))
+            ctx.mark_nontrivial(('hbt', pat))
+    finally:
+        shutil.rmtree(root[:-len('/w/x/y/root')], ignore_errors=True)
+
+
 MIXED_PATTERNS = [('a', ()), ('*', ()), ('a/b', ()), ('d/a', ()), ('[ab]', ()), ('**/a', ('GLOBSTAR',)), ('@(a)', ('EXTMATCH',)),
                   ('a|b', ('SPLIT',)), ('{a,b}', ('BRACE',)), ('!a', ('NEGATE',)), ('!a', ('NEGATE', 'NEGATEALL')), ('*|!a', ('NEGATE', 'SPLIT')),
                   ('.', ()), ('d/', ()), ('?', ('DOTMATCH',)), ('A', ('IGNORECASE',)), ('a', ('FORCEWIN',)), ('\\a', ()), ('[[:alpha:]]', ())]
@@ -212,6 +270,16 @@ def tree_pairs(ctx, rng, k):
             pair(ctx, 'WcMatch on a tree', wit, lambda: WM.WcMatch(root, fpat, 'b', wfl).match(),
                  lambda: WM.WcMatch(broot, enc(fpat), b'b', wfl).match())
             ctx.count('tree_pairs')
+        # omitted / None / empty patterns take their type from the root
+        wfl0 = WM.RECURSIVE | WM.HIDDEN
+        for what, sa, ba in (
+                ('file pattern omitted', lambda: WM.WcMatch(root, flags=wfl0).match(), lambda: WM.WcMatch(broot, flags=wfl0).match()),
+                ('file pattern None', lambda: WM.WcMatch(root, None, None, wfl0).match(), lambda: WM.WcMatch(broot, None, None, wfl0).match()),
+                ('file pattern empty', lambda: WM.WcMatch(root, '', 'b', wfl0).match(), lambda: WM.WcMatch(broot, b'', b'b', wfl0).match()),
+                ('exclude pattern omitted', lambda: WM.WcMatch(root, '*', flags=wfl0).match(), lambda: WM.WcMatch(broot, b'*', flags=wfl0).match()),
+                ('exclude pattern empty', lambda: WM.WcMatch(root, 'a*|b', '', wfl0).match(), lambda: WM.WcMatch(broot, b'a*|b', b'', wfl0).match())):
+            pair(ctx, 'WcMatch on a tree (' + what + ')', {'api': 'WcMatch', 'pattern': '', 'flags': wfl0, 'tree': spec, 'defaults': what}, sa, ba)
+            ctx.count('tree_pairs')
         if k % 5 == 0:
             ctx.sample({'tree': spec, 'example': 'glob(p, root_dir=str) vs glob(encode(p), root_dir=bytes)'})
 
@@ -248,6 +316,7 @@ def flag_pair_sweep(ctx):
 def run(ctx):
     quick = ctx.quick
     high_bytes(ctx)
+    high_byte_tree(ctx)
     flag_pair_sweep(ctx)
     if ctx.shard == 0:
         with T.Tree([('a', 'f', None), ('b', 'f', None)], 'c18m-') as tr:
@@ -312,7 +381,12 @@ def replay(ctx, w):
         spec = [tuple(x) for x in w['tree']]
         with T.Tree(spec, 'c18r-') as tr:
             root, broot = tr.root, os.fsencode(tr.root)
-            if w['api'] == 'WcMatch':
+            if w['api'] == 'WcMatch' and w.get('defaults'):
+                for sa, ba in ((lambda: WM.WcMatch(root, flags=w['flags']).match(), lambda: WM.WcMatch(broot, flags=w['flags']).match()),
+                               (lambda: WM.WcMatch(root, '', 'b', w['flags']).match(), lambda: WM.WcMatch(broot, b'', b'b', w['flags']).match()),
+                               (lambda: WM.WcMatch(root, 'a*|b', '', w['flags']).match(), lambda: WM.WcMatch(broot, b'a*|b', b'', w['flags']).match())):
+                    pair(ctx, 'WcMatch on a tree (defaults)', w, sa, ba)
+            elif w['api'] == 'WcMatch':
                 pair(ctx, 'WcMatch on a tree', w, lambda: WM.WcMatch(root, w['pattern'], 'b', w['flags']).match(),
                      lambda: WM.WcMatch(broot, enc(w['pattern']), b'b', w['flags']).match())
             else:
@@ -321,6 +395,7 @@ def replay(ctx, w):
                      lambda: G.glob(enc(w['pattern']), flags=flags, root_dir=broot))
     else:
         high_bytes(ctx)
+        high_byte_tree(ctx)
         with T.Tree([('a', 'f', None)], 'c18m-') as tr:
             mixed_types(ctx, tr.root)
     return ctx.violations or None
